@@ -363,7 +363,20 @@ def r09_3(ctx, m):
         try:
             v = all(ordtab.Evaluator(env, atom_of, scale).truth(t) == pol for t, pol in guards)
         except ordtab.Unsupported as e:
-            raise AnalysisError("R09.3", pa.where(one), f"inversion guard outside the fragment: {e}")
+            # not a function of the two counts: evaluate the guard on every list of scaffold orientations up to length four
+            ol_ = sc.scaffold_orientation_list(pa)
+            if ol_ is None:
+                raise AnalysisError("R09.3", pa.where(one), f"inversion guard outside the fragment: {e}")
+            try:
+                for L_ in sc.orientation_lists(4):
+                    v_ = all(bool(sc.eval_list_test(t, ol_, L_, _pd)) == pol for t, pol in guards)
+                    want_ = ">" in L_ and "<" in L_
+                    if v_ != want_ and bad is None:
+                        bad = {"scaffold_orientations": "".join(L_), "iv": int(v_), "required": int(want_)}
+            except sc.ListUnsupported as e2:
+                raise AnalysisError("R09.3", pa.where(one), f"inversion guard outside the fragment: {e} / {e2}")
+            rows = 31
+            break
         want = env["fwd"] > 0 and env["rev"] > 0
         if v != want:
             bad = {"count('>')": env["fwd"], "count('<')": env["rev"], "iv": int(v), "required": int(want)}
